@@ -8,11 +8,11 @@ import time
 
 import z3
 
-Z3_TIMEOUT_MS = int(os.environ.get("PYVC_Z3_TIMEOUT_MS", "10000"))
-MAX_HARD = int(os.environ.get("PYVC_MAX_HARD", "4"))
-INC_TIMEOUT_MS = int(os.environ.get("PYVC_INC_TIMEOUT_MS", "3000"))
-EMATCH_TIMEOUT_MS = int(os.environ.get("PYVC_EMATCH_TIMEOUT_MS", "6000"))
-CVC5_TIMEOUT_S = int(os.environ.get("PYVC_CVC5_TIMEOUT_S", "12"))
+Z3_TIMEOUT_MS = int(os.environ.get("PYVC_Z3_TIMEOUT_MS", "30000"))
+MAX_HARD = int(os.environ.get("PYVC_MAX_HARD", "3"))
+INC_TIMEOUT_MS = int(os.environ.get("PYVC_INC_TIMEOUT_MS", "4000"))
+EMATCH_TIMEOUT_MS = int(os.environ.get("PYVC_EMATCH_TIMEOUT_MS", "10000"))
+CVC5_TIMEOUT_S = int(os.environ.get("PYVC_CVC5_TIMEOUT_S", "20"))
 CVC5 = os.environ.get("PYVC_CVC5", "/usr/bin/cvc5")
 
 
@@ -20,8 +20,9 @@ _sk = [0]
 
 
 def split_goal(g, hyps=(), depth=0):
-    """Split a goal into simpler subgoals (all must hold): conjunctions are proved conjunct by conjunct, universal
-    goals are skolemised by hand, implications move their premise to the hypotheses."""
+    """Split a goal into subgoals (all must hold): TOP-LEVEL conjunctions are proved conjunct by conjunct and a
+    top-level universal goal is skolemised by hand.  The body of a quantifier is kept whole: its conjuncts share the
+    terms that trigger the hypotheses' quantifiers."""
     if depth > 6:
         return [(hyps, g)]
     if z3.is_and(g):
@@ -35,17 +36,11 @@ def split_goal(g, hyps=(), depth=0):
             _sk[0] += 1
             vs.append(z3.Const("sk!%s!%d" % (g.var_name(i), _sk[0]), g.var_sort(i)))
         body = z3.substitute_vars(g.body(), *reversed(vs))
-        return split_goal(body, hyps, depth + 1)
+        return [(hyps, body)]
     if z3.is_implies(g):
         a, b = g.children()
-        return split_goal(b, hyps + (a,), depth + 1)
-    if z3.is_or(g):
-        # Or(Not(a), rest...) is an implication in disguise after simplification
-        ch = g.children()
-        nots = [c for c in ch if z3.is_not(c)]
-        rest = [c for c in ch if not z3.is_not(c)]
-        if nots and len(rest) == 1 and (z3.is_and(rest[0]) or z3.is_quantifier(rest[0])):
-            return split_goal(rest[0], hyps + tuple(c.children()[0] for c in nots), depth + 1)
+        if z3.is_and(b) or (z3.is_quantifier(b) and b.is_forall()):
+            return split_goal(b, hyps + (a,), depth + 1)
     return [(hyps, g)]
 
 
@@ -53,7 +48,8 @@ class PathSolver:
     """Obligations of one path share an incremental E-matching solver (facts only grow along a
     path); whatever it leaves open is re-tried one-shot (E-matching, then MBQI, then cvc5)."""
 
-    def __init__(self, facts, hard_names=None):
+    def __init__(self, facts, hard_names=None, hints=None):
+        self.hints = hints or {}
         self.facts = facts
         self.hard = hard_names if hard_names is not None else set()
         self.n = 0
@@ -72,6 +68,14 @@ class PathSolver:
             self.n += 1
         subs = split_goal(ob.goal)
         r = z3.unsat
+        if self.hints.get(ob.name) == "mbqi":
+            # known (from the committed baseline) to need the model-based pass: go there directly
+            ob.pc = tuple(self.facts[:ob.nfacts])
+            discharge(ob, recheck_cvc5=recheck_cvc5, mbqi_first=True)
+            ob.time = time.time() - t0
+            if ob.status != "discharged":
+                self.hard.add(ob.name)
+            return ob
         for hyps, sg in subs:
             self.s.push()
             for h in hyps:
@@ -101,7 +105,7 @@ class PathSolver:
         return ob
 
 
-def discharge(ob, use_cvc5=True, recheck_cvc5=False):
+def discharge(ob, use_cvc5=True, recheck_cvc5=False, mbqi_first=False):
     """Sets ob.status in {'discharged','failed','unknown'} and ob.backend."""
     t0 = time.time()
     g = ob.goal
@@ -114,7 +118,7 @@ def discharge(ob, use_cvc5=True, recheck_cvc5=False):
     s = None
     subs = split_goal(g)
     for hyps, sg in subs:
-        for mbqi, tmo in ((False, EMATCH_TIMEOUT_MS), (True, Z3_TIMEOUT_MS)):
+        for mbqi, tmo in (((True, Z3_TIMEOUT_MS), (False, EMATCH_TIMEOUT_MS)) if mbqi_first else ((False, EMATCH_TIMEOUT_MS), (True, Z3_TIMEOUT_MS))):
             s = z3.Solver()
             s.set("timeout", tmo)
             if not mbqi:
@@ -132,7 +136,7 @@ def discharge(ob, use_cvc5=True, recheck_cvc5=False):
             break
     ob.time = time.time() - t0
     if r == z3.unsat:
-        ob.status, ob.backend = "discharged", "z3"
+        ob.status, ob.backend = "discharged", ("z3-mbqi" if mbqi else "z3")
     elif r == z3.sat:
         ob.status, ob.backend = "failed", "z3"
         try:
